@@ -12,6 +12,7 @@ META = {
         "(permutation inside each segment), unwrapped when one, None when none or nothing fired. "
         ""
         "20% of the machines in an alternative declaration style. "
+        "Probe: an event name used as before/on action contributes the chained event's result under rtc=False. "
         "distinct_nontrivial = distinct (#before, #on, value-kind pattern, transition kind, engine) observed."
     ),
     "assumptions": ["order inside the before segment and inside the on segment is unconstrained"],
